@@ -472,6 +472,36 @@ def check_classifier(ctx):
                 ok = ok and "hasattr(%s, '%s')" % (obj, c) in lits and "callable(%s.%s)" % (obj, c) in lits
         ctx.check("C03-a", ok, pf, "%s does not require callable %s: an object without them would be driven as that kind" % (pred, "/".join(caps)),
                   detail="%s <=> callable %s" % (pred, ", ".join(caps)), construct="pred:%s" % pred)
+    # the sequence predicates ask of an element exactly what the element predicate -- with which the constructor of that
+    # kind searches for its main element -- asks: otherwise a branch the constructor would accept is classified as another kind
+    n_any = 0
+    for spred, epred in (("is_fill_compute_seq", "is_fill_compute_el"), ("is_fill_request_seq", "is_fill_request_el")):
+        sf = ctx.tree.func("lena.core.check_sequence_type", spred)
+        sp = A.func_params(sf)[0]
+        ecanon = "lena.core.check_sequence_type." + epred
+        anys = [c for c in A.walk_local(sf) if isinstance(c, ast.Call) and res.call_canon(c) == "builtins.any" and len(c.args) == 1]
+        if not ctx.require(anys, "C03-a", sf, "%s: no any(...) over the elements of the sequence was found" % spred):
+            continue
+        for c in anys:
+            n_any += 1
+            a = c.args[0]
+            ok = False
+            if isinstance(a, ast.Call) and res.call_canon(a) == "builtins.map" and len(a.args) == 2:
+                ok = res.canon(a.args[0]) == ecanon and A.src(a.args[1]) == sp
+            elif isinstance(a, (ast.GeneratorExp, ast.ListComp)) and len(a.generators) == 1:
+                g = a.generators[0]
+                ok = (not g.ifs and A.src(g.iter) == sp and isinstance(a.elt, ast.Call) and res.canon(a.elt.func) == ecanon
+                      and len(a.elt.args) == 1 and A.src(a.elt.args[0]) == A.src(g.target))
+            ctx.check("C03-a", ok, c, "%s decides by `%s`, not by any(%s(el) for el in %s): an element the %s constructor would take "
+                      "for its main element (it searches with %s alone) no longer makes the branch that kind -- a nested Split or "
+                      "Count with fill/compute would be run per block as a plain sequence and yield partial results"
+                      % (spred, A.short(c, 70), epred, sp, "FillComputeSeq" if "compute" in spred else "FillRequestSeq", epred),
+                      detail="%s: any element satisfying %s, nothing more" % (spred, epred), construct="seq-pred:%s" % spred)
+        selfs = [c for c in A.walk_local(sf) if isinstance(c, ast.Call) and res.canon(c.func) == ecanon and len(c.args) == 1
+                 and A.src(c.args[0]) == sp]
+        ctx.check("C03-a", len(selfs) >= 1, sf, "%s does not test the object itself with %s: a bare element of that kind is not "
+                  "recognised" % (spred, epred), detail="%s tests the bare object with %s" % (spred, epred), construct="seq-pred-self:%s" % spred)
+    ctx.instances_floor("C03-a/seq-pred", n_any, 2, "element scans in the sequence predicates")
     # is_source, used by Split.__call__ / Zip for the common type, must recognise what the classifier calls a source
     isf = ctx.tree.func("lena.core.check_sequence_type", "is_source")
     ip = A.func_params(isf)[0]
@@ -961,11 +991,39 @@ def check_final_pass(ctx, KINDS):
     if ctx.require(ok, "C03-f", init, "_n_seq_types is not computed as len(set of kinds)"):
         ctx.ok("C03-f", init, "_n_seq_types = len(set of kinds)")
     # common-type methods
+    res = ctx.res
     cls = ctx.tree.cls(SPLIT, "Split")
     ms = methods(cls)
     for name, meth, arg in (("_compute", "compute", None), ("_request", "request", None), ("__call__", "__call__", None)):
         f = ms.get(name)
         if not ctx.require(f is not None, "C03-b", cls, "Split.%s vanished" % name):
+            continue
+        # a branch is started when it is reached: collecting the started branches first (a list of seq() / seq.compute()
+        # results) runs the bodies of ordinary (non-generator) branch methods -- and the whole of a Source that is not lazy --
+        # before the results of the first branch have been yielded
+        eager = None
+        for c in A.walk_local(f):
+            if isinstance(c, (ast.ListComp, ast.SetComp, ast.DictComp)) and any(K.iter_order(g.iter, "self._seqs") is not None or
+                                                                              "self._seqs" in A.src(g.iter) for g in c.generators):
+                tv = {x for g in c.generators for x in A.target_names(g.target)}
+                if any(isinstance(x, ast.Call) and A.root_name(x.func) in tv for x in ast.walk(c)):
+                    eager = c
+            if isinstance(c, ast.Call) and res.call_canon(c) in ("builtins.list", "builtins.tuple") and c.args and any(
+                    isinstance(x, (ast.GeneratorExp, ast.Call)) and "self._seqs" in A.src(x) and any(
+                        isinstance(y, ast.Call) and y is not x for y in ast.walk(x)) for x in c.args[:1]) and any(
+                    isinstance(y, ast.Call) and y is not c.args[0] for y in ast.walk(c.args[0])):
+                eager = c
+            if isinstance(c, ast.Call) and isinstance(c.func, ast.Attribute) and c.func.attr in ("append", "add", "insert"):
+                lp = A.enclosing(c, (ast.For,))
+                if lp is not None and "self._seqs" in A.src(lp.iter):
+                    tv = set(A.target_names(lp.target))
+                    if any(isinstance(x, ast.Call) and A.root_name(x.func) in tv for a in c.args for x in ast.walk(a)):
+                        eager = c
+        if eager is not None:
+            ctx.violation("C03-b", eager, "Split.%s starts every branch before it yields the results of the first (`%s`): the output must "
+                          "be the complete output of each branch when it is reached, in branch order -- a branch whose %s is an "
+                          "ordinary method does all its work (and side effects) ahead of the results of the earlier branches"
+                          % (name, A.short(eager, 60), meth), construct="common-eager:%s" % name)
             continue
         loops = [l for l in f.body if isinstance(l, ast.For)]
         if not ctx.require(len(loops) == 1, "C03-b", f, "Split.%s: expected one loop over the branches" % name):
@@ -1137,6 +1195,16 @@ VARIANTS = [
     M("compute-every-block", SP, "                    if stopped:\n                        for result in seq.compute():\n                            yield result\n",
       "                    for result in seq.compute():\n                        yield result\n                    if stopped:\n", ["C03-b"]),
     M("active-alias", SP, "        active_seqs = self._seqs[:]", "        active_seqs = self._seqs", ["C03-d"]),
+    M("call-starts-all-branches-first", SP, "        for seq in self._seqs:\n            for result in seq():\n                yield result",
+      "        flows = [seq() for seq in self._seqs]\n        for result in itertools.chain.from_iterable(flows):\n            yield result", ["C03-b"]),
+    M("compute-collects-branches-first", SP, "        for seq in self._seqs:\n            for val in seq.compute():\n                yield val",
+      "        flows = []\n        for seq in self._seqs:\n            flows.append(seq.compute())\n        for flow in flows:\n            for val in flow:\n                yield val", ["C03-b"]),
+    M("fc-seq-pred-excludes-run-elements", "lena/core/check_sequence_type.py", "        is_fcseq = any(map(is_fill_compute_el, seq))",
+      "        is_fcseq = any(is_fill_compute_el(el) and not is_run_el(el) for el in seq)", ["C03-a"]),
+    M("fr-seq-pred-filters", "lena/core/check_sequence_type.py", "        is_fcseq = any(map(is_fill_request_el, seq))",
+      "        is_fcseq = any(is_fill_request_el(el) for el in seq if not is_fill_compute_el(el))", ["C03-a"]),
+    TW("fc-seq-pred-genexp", "lena/core/check_sequence_type.py", "        is_fcseq = any(map(is_fill_compute_el, seq))",
+       "        is_fcseq = any(is_fill_compute_el(el) for el in seq)"),
     M("classifier-wrong-kind", SP, "    elif ct.is_fill_request_seq(seq):\n        seq_type = \"fill_request\"", "    elif ct.is_fill_request_seq(seq):\n        seq_type = \"fill_compute\"", ["C03-a"]),
     M("empty-flag-unconditional", SP, "            if orig_buf:\n                flow_was_empty = False\n            else:\n                break",
       "            flow_was_empty = False\n            if not orig_buf:\n                break", ["C03-e"]),
